@@ -25,6 +25,13 @@ type emitter struct {
 	sample []string
 	seen   map[uint64]struct{}
 	ucalls int
+
+	// process isolation of calls on untrusted input (see isolate.go)
+	child   bool
+	callIdx int
+	hung    map[int]bool
+	lastHung int
+	muted   bool
 }
 
 func newEmitter(path string) *emitter {
@@ -36,6 +43,9 @@ func newEmitter(path string) *emitter {
 }
 
 func (e *emitter) line(format string, a ...interface{}) {
+	if e.muted {
+		return
+	}
 	s := fmt.Sprintf(format, a...)
 	if strings.HasPrefix(s, "U ") {
 		// stateless mirror calls: shard marker every 5000 lines, distinct successful calls counted
@@ -51,8 +61,16 @@ func (e *emitter) line(format string, a ...interface{}) {
 	e.w.WriteByte('\n')
 	e.lines++
 }
-func (e *emitter) count(k string)        { e.stats[k]++ }
-func (e *emitter) countN(k string, n int) { e.stats[k] += n }
+func (e *emitter) count(k string) {
+	if !e.muted {
+		e.stats[k]++
+	}
+}
+func (e *emitter) countN(k string, n int) {
+	if !e.muted {
+		e.stats[k] += n
+	}
+}
 func (e *emitter) close() {
 	e.stats["distinct_nontrivial"] = len(e.seen)
 	e.w.Flush()
@@ -60,6 +78,9 @@ func (e *emitter) close() {
 
 // distinct records one non-trivial case (by its canonical text) for the evidence.
 func (e *emitter) distinct(key string) {
+	if e.muted {
+		return
+	}
 	if e.seen == nil {
 		e.seen = map[uint64]struct{}{}
 	}
